@@ -298,6 +298,42 @@ static void closerace(int nops,unsigned seed,std::vector<aio::event_handler> &ke
 	}
 }
 
+// registrations the back-end REFUSES (epoll: a regular file -> EPERM, a closed descriptor -> EBADF; select: a descriptor
+// number >= FD_SETSIZE; any: a negative descriptor): the handler is invoked once with the error, and a cancel / close of
+// that descriptor afterwards must not invoke it again.
+static void badfd(int nops,unsigned seed,std::vector<aio::event_handler> &keep,std::vector<aio::handler> &keep2)
+{
+	vt::rng R(seed);
+	for(int n=0;n<nops;n++) {
+		int fd=-1; bool close_after=false;
+		unsigned kind=R(4);
+		// the select back-end cannot refuse a closed descriptor number at registration time (its select() call fails later
+		// and run() throws): arming a wait on a descriptor that is already closed is a usage error there, not driven
+		if(kind==1 && srv->reactor_name()=="select") kind=3;
+		if(kind==0) { fd=open("/proc/self/exe",O_RDONLY); close_after=true; }                       // regular file
+		else if(kind==1) { int sp[2]; socketpair(AF_UNIX,SOCK_STREAM,0,sp); fd=sp[0]; close(sp[0]); close(sp[1]); }  // closed number
+		else if(kind==2) { int sp[2]; socketpair(AF_UNIX,SOCK_STREAM,0,sp); fd=dup2(sp[0],1100+R(50)); close(sp[0]); close(sp[1]); close_after=true; } // beyond FD_SETSIZE
+		else fd=-1;
+		bv::emit("\"e\":\"Fd\",\"fd\":%d,\"peer\":%d",fd,-1);
+		int h=next_h++; ev_handler f={h}; aio::event_handler eh(f); keep.push_back(eh);
+		int ev = R(2) ? (int)aio::io_events::in : (int)aio::io_events::out;
+		bv::emit("\"e\":\"Reg\",\"h\":%d,\"p\":%lu,\"kind\":\"io\",\"fd\":%d,\"ev\":%d",h,pid_of(eh.get_pointer().get()),fd,ev);
+		reg_count++;
+		srv->set_io_event(fd,ev,eh);
+		if(R(2)) { for(int spin=0;spin<300 && hstates[h].runs.load()==0;spin++) usleep(100); }
+		srv->cancel_io_events(fd);
+		for(int spin=0;spin<100000 && hstates[h].runs.load()==0;spin++) usleep(100);
+		if(hstates[h].runs.load()==0) break;
+		// give a second (wrong) invocation the chance to show up before the next round re-uses the number
+		int hp=next_h++; plain_handler pf={hp}; aio::handler ph(pf); keep2.push_back(ph);   // kept: its address must not be re-used
+		bv::emit("\"e\":\"Reg\",\"h\":%d,\"p\":%lu,\"kind\":\"post\"",hp,pid_of(ph.get_pointer().get()));
+		reg_count++; srv->post(ph);
+		for(int spin=0;spin<100000 && hstates[hp].runs.load()==0;spin++) usleep(100);
+		if(close_after && fd>=0) close(fd);
+		progress++;
+	}
+}
+
 // booster::aio::basic_io_device (stream_socket) closed / re-attached while a wait is pending: "closed first" must invoke the
 // handler exactly once with the cancellation code - for descriptors the device owns (assign) AND for descriptors it does
 // not own (attach, assign + release), on close() and when another descriptor is attached / assigned over it.
@@ -399,7 +435,7 @@ int main(int argc,char **argv)
 	unlink(out); bv::open(out);
 	base_ms=ptime::milliseconds(ptime::now());
 	long seed=vt::envl("VERIF_SEED",1);
-	hstates.resize((size_t)rounds*(producers+1)*nops*(mode=="cancelrace"?40:(mode=="closerace"||mode=="devclose"?3:(mode=="restart"?2:(mode=="burst"?300:1))))+16);
+	hstates.resize((size_t)rounds*(producers+1)*nops*(mode=="cancelrace"?40:(mode=="closerace"||mode=="devclose"||mode=="badfd"?3:(mode=="restart"?2:(mode=="burst"?300:1))))+16);
 	for(int r=0;r<rounds;r++) {
 		srv=new aio::io_service(reactor);
 		ran_count=0; reg_count=0;
@@ -513,6 +549,18 @@ int main(int argc,char **argv)
 			srv->stop();
 			loop.join();
 			for(int i=0;i<nt;i++) delete dts[i].t;
+			keep.clear(); keep2.clear();
+			delete srv; srv=0;
+			continue;
+		}
+		if(mode=="badfd") {
+			usleep(1000);
+			badfd(nops,seed*29+r*3+reactor,keep[0],keep2[0]);
+			usleep(2000);
+			bv::emit("\"e\":\"Quiesce\",\"reg\":%ld,\"ran\":%ld",reg_count.load(),ran_count.load());
+			if(ran_count.load()<reg_count.load()) { bv::close(); _exit(0); }
+			srv->stop();
+			loop.join();
 			keep.clear(); keep2.clear();
 			delete srv; srv=0;
 			continue;
